@@ -99,6 +99,10 @@ def make_modules(I):
     mods["numpy.typing"] = ModuleNS("numpy.typing", tns)
     mods["pathlib"] = ModuleNS("pathlib", {"Path": TypingDummy("Path")})
 
+    def _no_files(*a, **k):
+        raise Untranslatable("file input/output")
+    mods["codecs"] = ModuleNS("codecs", {"open": Builtin("codecs.open", _no_files)})
+
     # abc
     import abc as _abc
 
